@@ -37,6 +37,22 @@ impl Drop for Paused {
     }
 }
 
+type NoteFn = unsafe extern "C" fn(*const libc::c_char);
+
+/// A scheduling point of the harness itself (gate mode only).
+fn shim_note(s: &str) {
+    use std::sync::OnceLock;
+    static F: OnceLock<Option<NoteFn>> = OnceLock::new();
+    let f = F.get_or_init(|| unsafe {
+        let p = libc::dlsym(libc::RTLD_DEFAULT, b"kshim_note\0".as_ptr() as *const _);
+        if p.is_null() { None } else { Some(std::mem::transmute::<*mut libc::c_void, NoteFn>(p)) }
+    });
+    if let Some(f) = f {
+        let c = std::ffi::CString::new(s).unwrap();
+        unsafe { f(c.as_ptr()) }
+    }
+}
+
 fn mark(s: &str) {
     if let Ok(p) = std::env::var("KSHIM_LOG") {
         let _g = Paused::new();
@@ -258,6 +274,8 @@ pub fn run() {
     let mut nhandles = 1usize;
     let mut step = 0usize;
     let mut stage_ctr = 0usize;
+    let mut stage_tag = String::new();
+    let gated = std::env::var("KGATE_OUT").is_ok();
     for line in stdin.lock().lines() {
         let line = line.unwrap();
         let f: Vec<&str> = line.split_whitespace().collect();
@@ -288,6 +306,7 @@ pub fn run() {
                 libc::umask(u32::from_str_radix(f[1], 8).unwrap());
             },
             "handles" => nhandles = f[1].parse().unwrap(),
+            "stagetag" => stage_tag = f[1].to_string(),
             "build" => {
                 caches.clear();
                 ros.clear();
@@ -408,6 +427,7 @@ pub fn run() {
                 step += 1;
                 let h: usize = if f[1] == "-" { 0 } else { f[1].parse().unwrap() };
                 let kind = f[2];
+                shim_note(&format!("step {} begin {}", step, kind));
                 mark(&format!("step {} begin {} {}", step, kind, std::time::SystemTime::now().duration_since(std::time::UNIX_EPOCH).map(|d| d.as_nanos()).unwrap_or(0)));
                 checker_calls.store(0, Ordering::SeqCst);
                 checker_log.lock().unwrap().clear();
@@ -417,11 +437,11 @@ pub fn run() {
                     stage_ctr += 1;
                     let data = expand(content);
                     if named {
-                        let mut t = tempfile::Builder::new().prefix("stg").rand_bytes(0).suffix(&format!("{}", stage_ctr)).tempfile_in(root.join("stage"))?;
+                        let mut t = tempfile::Builder::new().prefix("stg").rand_bytes(0).suffix(&format!("{}{}", stage_tag, stage_ctr)).tempfile_in(root.join("stage"))?;
                         write_chunks(t.as_file_mut(), &data, chunks)?;
                         Ok((None, Some(t)))
                     } else {
-                        let p = root.join("stage").join(format!("src{}", stage_ctr));
+                        let p = root.join("stage").join(format!("src{}{}", stage_tag, stage_ctr));
                         let mut fh = File::create(&p)?;
                         write_chunks(&mut fh, &data, chunks)?;
                         drop(fh);
@@ -557,13 +577,18 @@ pub fn run() {
                     }
                 };
                 mark(&format!("step {} returned", step));
+                shim_note(&format!("step {} returned", step));
+                // gate mode: other participants may have run since the return; the handle must
+                // still read the same complete value
+                let late = if gated { held.as_ref().map(|fh| show(&peek(fh).0)) } else { None };
                 let fds_held = fds_under(&cfg.root);
                 drop(held);
                 mark(&format!("step {} end", step));
                 let fds_after = fds_under(&cfg.root);
                 let cl = checker_log.lock().unwrap().join(",");
-                writeln!(out, "R {} {} {} fds={}/{}/{} chk={}[{}]", step, kind, line_out, fds_before, fds_held, fds_after,
-                         checker_calls.load(Ordering::SeqCst), cl).unwrap();
+                let late_s = late.map(|l| format!(" late={}", l)).unwrap_or_default();
+                writeln!(out, "R {} {} {} fds={}/{}/{} chk={}[{}]{}", step, kind, line_out, fds_before, fds_held, fds_after,
+                         checker_calls.load(Ordering::SeqCst), cl, late_s).unwrap();
                 out.flush().unwrap();
             }
             _ => {
